@@ -92,7 +92,7 @@ def FLOORS(tier):
         'biglist_variants': 2 if q else 4,
         'biglist_resumes': 1 if q else 6,
         # driven through step() (not run()) with two or more intermediate-producing steps of one kind (GVCF / dataset) in one process
-        'stepped_runs_with_2+_intermediate_steps_of_one_kind': 1000 if q else 10000,
+        'stepped_runs_with_2+_intermediate_steps_of_one_kind': 2200 if q else 20000,
     }
 
 
